@@ -2,6 +2,7 @@ package main
 
 import (
 	"fmt"
+	"go/constant"
 	"go/token"
 	"go/types"
 	"strings"
@@ -87,6 +88,16 @@ func (c *Ctx) prunedCellLayout() {
 	// the pruned-branch cell is built in pruneCells or in the unexported helper it delegates to
 	entry := f
 	f, nc := c.hostOf(entry, bocPath+".NewCell")
+	exoticArg := int64(-1)
+	if nc == nil {
+		// NewCellExotic(type) instead of NewCell() + a store of the type
+		if g, cl := c.hostOf(entry, bocPath+".NewCellExotic"); cl != nil {
+			f, nc = g, cl
+			if k, ok := constInt(stripConv(cl.Call.Args[0])); ok {
+				exoticArg = k
+			}
+		}
+	}
 	if nc == nil {
 		c.bad(R, "pruned cell construction", entry.Pos(), "no boc.NewCell() in pruneCells")
 		return
@@ -105,6 +116,9 @@ func (c *Ctx) prunedCellLayout() {
 	}
 	st := fieldStoresOn(f, nc)
 	ct, _ := constInt(stripConv(valOr(st["cellType"])))
+	if _, stored := st["cellType"]; !stored && exoticArg >= 0 {
+		ct = exoticArg
+	}
 	mk, _ := constInt(stripConv(valOr(st["mask"])))
 	c.check(ct == 1 && mk == 1, R, "pruned branch has exotic type 1 and level mask 1", nc.Pos(), "cellType = PrunedBranchCell, mask = 1", fmt.Sprintf("the pruned-branch cell gets cellType %d and mask %d (expected 1 and 1)", ct, mk))
 	// Merkle cells refused
@@ -123,7 +137,7 @@ func (c *Ctx) prunedCellLayout() {
 
 func valOr(v ssa.Value) ssa.Value {
 	if v == nil {
-		return ssa.NewConst(nil, nil)
+		return ssa.NewConst(constant.MakeInt64(-1), types.Typ[types.Int])
 	}
 	return v
 }
@@ -134,9 +148,17 @@ func (c *Ctx) proofRootLayout() {
 	if f == nil {
 		return
 	}
+	// the root is made by NewCell() followed by a store of the exotic type, or by NewCellExotic(type)
 	var nc *ssa.Call
+	exoticArg := int64(-1)
 	for _, cl := range callsTo(f, bocPath+".NewCell") {
 		nc = cl
+	}
+	for _, cl := range callsTo(f, bocPath+".NewCellExotic") {
+		nc = cl
+		if k, ok := constInt(stripConv(cl.Call.Args[0])); ok {
+			exoticArg = k
+		}
 	}
 	if nc == nil {
 		c.bad(R, "proof root construction", f.Pos(), "no boc.NewCell() in CreateProof")
@@ -156,6 +178,9 @@ func (c *Ctx) proofRootLayout() {
 	}
 	st := fieldStoresOn(f, nc)
 	ct, _ := constInt(stripConv(valOr(st["cellType"])))
+	if _, stored := st["cellType"]; !stored && exoticArg >= 0 {
+		ct = exoticArg
+	}
 	c.check(ct == 3, R, "proof root has exotic type Merkle proof", nc.Pos(), "cellType = MerkleProofCell", fmt.Sprintf("the proof root gets cellType %d (expected 3)", ct))
 }
 
@@ -247,7 +272,18 @@ func (c *Ctx) proveKeyRules() {
 		return "", nil
 	}
 	var eqIf *ssa.If
-	for _, b := range f.Blocks {
+	// the comparison (with the proof construction behind it) sits in ProveKeyInHashmap or in an unexported
+	// helper it ends with (proveLeaf)
+	entry := f
+	var allBlocks []*ssa.BasicBlock
+	for _, g := range c.deepFns(entry) {
+		allBlocks = append(allBlocks, g.Blocks...)
+	}
+	keyParam := ssa.Value(nil)
+	if len(entry.Params) >= 3 {
+		keyParam = entry.Params[2]
+	}
+	for _, b := range allBlocks {
 		ifi := lastIf(b)
 		if ifi == nil {
 			continue
@@ -262,7 +298,7 @@ func (c *Ctx) proveKeyRules() {
 			continue
 		}
 		isKey := func(v ssa.Value) bool {
-			return derivesFrom(v, func(x ssa.Value) bool { p, ok := x.(*ssa.Parameter); return ok && p.Name() == "key" }, false)
+			return derivesFrom(v, func(x ssa.Value) bool { return keyParam != nil && x == keyParam }, false)
 		}
 		isBuilt := func(v ssa.Value) bool { return derivesFrom(v, callResult(bocPath+".BitString.ReadBits"), false) }
 		if (isKey(ra) && isBuilt(rb)) || (isKey(rb) && isBuilt(ra)) {
@@ -278,17 +314,34 @@ func (c *Ctx) proveKeyRules() {
 			passIdx = 1
 		}
 		cut := map[edge]bool{{eqIf.Block(), passIdx}: true}
+		f = eqIf.Parent() // the function that holds the comparison
 		reach := reachableWithout(f, cut)
 		okv := true
-		for _, sp := range successPoints(f, 2) {
+		errIdx := f.Signature.Results().Len() - 1
+		for _, sp := range successPoints(f, errIdx) {
 			if reach[sp.Block] {
 				okv = false
+			}
+		}
+		if f != entry {
+			// every success of the entry point goes through the helper
+			for _, sp := range successPoints(entry, 2) {
+				through := false
+				for _, cl := range callsTo(entry, qname(f.Object().(*types.Func))) {
+					if cl.Block().Dominates(sp.Block) {
+						through = true
+					}
+				}
+				if !through {
+					okv = false
+				}
 			}
 		}
 		c.check(okv, R, "proof only for the requested key", condPos(eqIf), "every success exit lies behind the equality of the complete keys", "ProveKeyInHashmap can return a proof without the reconstructed key being equal to the requested key")
 		// the absent-key edge is an error
 		c.check(rejects(f, eqIf.Block()), R, "absent key is an error", condPos(eqIf), "the failing edge of the key comparison returns an error", "a key mismatch in ProveKeyInHashmap no longer returns an error")
 	}
+	f = entry
 	// sibling pruning: on each side of the fork the pruned reference and the followed reference are the two different children
 	type br struct{ pruned, followed []int64 }
 	sides := map[bool]*br{true: {}, false: {}}
@@ -373,7 +426,7 @@ func (c *Ctx) proveKeyRules() {
 		c.bad(R, "the sibling is pruned and the taken side is followed", f.Pos(), "fork on the key bit not found")
 	}
 	// the proof comes from the prover's CreateProof on the cursor
-	c.check(len(callsTo(f, bocPath+".MerkleProver.CreateProof")) == 1, R, "proof bytes come from MerkleProver.CreateProof", f.Pos(), "single CreateProof call", "ProveKeyInHashmap no longer builds the proof through MerkleProver.CreateProof")
+	c.check(len(c.callsToDeep(entry, bocPath+".MerkleProver.CreateProof")) == 1, R, "proof bytes come from MerkleProver.CreateProof", entry.Pos(), "single CreateProof call", "ProveKeyInHashmap no longer builds the proof through MerkleProver.CreateProof")
 }
 
 // cursorFreshness: each walk over the prover's tree has its own pruning set. Cursor() creates the
